@@ -28,7 +28,7 @@ OTHER_DIR = "/SIMFS/othercache"
 
 RES_FAULTS = ("NOTFOUND", "ERR_BEFORE", "ERR_MID", "ERR_AFTER", "RET_FALSE_BEFORE", "RET_FALSE_MID", "INTERRUPT_MID",
               "ERR_STOPITER", "NOTFOUND_MID")
-NET_FAULTS = ("HTTP_404", "HTTP_5XX", "CONN_ERR", "TIMEOUT")
+NET_FAULTS = ("HTTP_404", "HTTP_5XX", "CONN_ERR", "TIMEOUT", "HTTP_DROP_MID")
 FS_FAULTS = ("EIO", "ENOSPC", "SHORT_WRITE", "EMFILE", "SRC_MISSING", "RENAME_EIO", "DISK_FULL")
 PP_FAULTS = ("PP_ERR_BEFORE", "PP_ERR_MID", "PP_ERR_AFTER", "PP_INTERRUPT_MID")
 VAL_FAULTS = ("VALIDATE_FALSE", "VALIDATE_IOERROR", "VALIDATE_RAISE")
@@ -73,6 +73,10 @@ def cache_file_name(k):
 
 def is_cache_name(name):
     return name.startswith("cachefile_") and name.endswith("_cachefile")
+
+
+ERR_TYPES = {"io": InjectedError, "conn": ConnectionError, "timeout": TimeoutError, "runtime": RuntimeError,
+             "value": ValueError, "os": OSError}
 
 
 class RunDirector(Director):
@@ -491,6 +495,10 @@ class World:
             depth += 1
         return None
 
+    def _err_type(self):
+        """the exception class a failing user-written download function raises (varies per run)"""
+        return ERR_TYPES.get(self.knobs.get("err_type", "io"), InjectedError)
+
     def sim_download(self, uri, filepath, NotFound):
         # the resource sees the uri literally: stripping the "<<comment" is the cache's job
         res = uri.split("://", 1)[1].split("/", 1)[1]
@@ -504,7 +512,7 @@ class World:
         if data is None or kind == "NOTFOUND":
             raise NotFound("sim resource has no object %s" % uri)
         if kind == "ERR_BEFORE":
-            raise InjectedError("injected: error before the first byte of %s" % uri)
+            raise self._err_type()("injected: error before the first byte of %s" % uri)
         if kind == "ERR_STOPITER":
             # e.g. a bare next() on an empty chunk iterator inside the user's download function
             raise StopIteration("injected: empty response iterator for %s" % uri)
@@ -529,13 +537,13 @@ class World:
                     if kind == "INTERRUPT_MID":
                         # the user hits Ctrl-C part-way through a (sequential) download
                         raise KeyboardInterrupt()
-                    raise InjectedError("injected: connection lost part-way through %s" % uri)
+                    raise self._err_type()("injected: connection lost part-way through %s" % uri)
                 f.write(piece)
                 self.sched("net.chunk", uri, len(piece))
         if failed_quietly:
             return False
         if kind == "ERR_AFTER":
-            raise InjectedError("injected: error after the last byte of %s" % uri)
+            raise self._err_type()("injected: error after the last byte of %s" % uri)
         if self.knobs.get("ret_style", "true") == "none":
             return None  # many user-written download functions simply do not return anything
         return True
@@ -554,10 +562,22 @@ class World:
             raise _rq.exceptions.Timeout("injected: timed out")
         data = self.store.current(res)
         if kind == "HTTP_5XX":
-            return FakeResponse(url, 503, b"unavailable")
+            return FakeResponse(url, 503, b"unavailable", self)
         if data is None or kind == "HTTP_404":
-            return FakeResponse(url, 404, b"not found")
-        return FakeResponse(url, 200, data)
+            return FakeResponse(url, 404, b"not found", self)
+        status, body = 200, data
+        rng_hdr = (kwargs.get("headers") or {}).get("Range")
+        if rng_hdr and self.knobs.get("http_range", True):
+            # a server that honours Range answers 206 with the rest; one that does not sends the whole object
+            try:
+                start = int(rng_hdr.split("=")[1].split("-")[0])
+                status, body = 206, data[start:]
+            except (ValueError, IndexError):
+                pass
+        drop = None
+        if kind == "HTTP_DROP_MID":
+            drop = fault.get("k", 1)  # the connection breaks after this many pieces of the body
+        return FakeResponse(url, status, body, self, drop_after=drop)
 
     def _pp(self, filepath):
         key = self._attribute_key(filepath, None)
@@ -709,9 +729,14 @@ class World:
             return self.fc.filepaths(uris, CACHE_NAME)
         return self.cache[uris]
 
-    def _remove(self, uri):
+    def _remove(self, uri, shape=None):
         if self.knobs.get("api", "object") == "module":
-            return self.fc.delete_files(uri, CACHE_NAME, error_if_not_in_cache=False)
+            arg = uri
+            if shape == "list":
+                arg = [uri]
+            elif shape == "generator":
+                arg = (u for u in [uri])  # delete_files accepts any Iterable[str]
+            return self.fc.delete_files(arg, CACHE_NAME, error_if_not_in_cache=False)
         return self.cache.remove(uri)
 
     def _purge(self):
@@ -1054,7 +1079,7 @@ class World:
                     if not held:
                         self.chain_busy = False
         elif kind == "REMOVE":
-            obs.result = self._remove(self.uris[op["key"]])
+            obs.result = self._remove(self.uris[op["key"]], op.get("shape"))
         elif kind == "PURGE":
             obs.result = self._purge()
         elif kind == "DRAIN":
